@@ -43,6 +43,9 @@ class GlencoeReader(TextToModel):
         feature_type = features_info[feature_id]["type"]
         # optional = features_info[feature_id]['optional']
         feature = Feature(name=features_info[feature_id]["name"], parent=parent)
+        if feature_type not in ("FEATURE", "XOR", "OR", "GENOR"):
+            # it used to re-add the last relation made, or to fail on the unbound 'relation'
+            raise FlamaException(f"Unknown type '{feature_type}' of feature '{feature.name}'.")
 
         if "children" in feature_node:
             children = []
